@@ -243,6 +243,7 @@ type vfc07Opts struct {
 	hist        bool // allow native histogram series
 	downsampled bool // allow one block to be labelled 5m resolution (raw chunks; label APIs only)
 	collide     bool // force stored labels that collide with external label names
+	chain       int  // > 0: that many (or one more) consecutive raw blocks with one external label set (one block set)
 }
 
 type vfc07Fixture struct {
@@ -384,6 +385,9 @@ func vfc07GenTimes(rng *rand.Rand, mint int64, slots int) []int64 {
 func vfc07GenFixtureSpec(rng *rand.Rand, o vfc07Opts) (*vfc07Universe, []vfc07BlockSpec) {
 	u := vfc07GenUniverse(rng, o)
 	nb := 1 + rng.Intn(o.maxBlocks)
+	if o.chain > 0 {
+		nb = o.chain + rng.Intn(2)
+	}
 	width := int64(o.slots) * vfc07Step
 	nser := 1 + rng.Intn(o.maxSeries)
 	if rng.Intn(3) != 0 && nser < o.maxSeries/4 {
@@ -401,6 +405,9 @@ func vfc07GenFixtureSpec(rng *rand.Rand, o vfc07Opts) (*vfc07Universe, []vfc07Bl
 		mode := "seq"
 		if b > 0 {
 			mode = []string{"seq", "seq", "replica", "half"}[rng.Intn(4)]
+		}
+		if o.chain > 0 {
+			mode, sp.ext = "seq", u.extSets[0]
 		}
 		switch mode {
 		case "seq":
@@ -608,6 +615,7 @@ type vfc07StoreCfg struct {
 	gap        uint64
 	hints      bool
 	lazyReader bool
+	delMarks   bool // meta fetcher with IgnoreDeletionMarkFilter(delay 0), as the store gateway runs it
 }
 
 func (c vfc07StoreCfg) String() string {
@@ -617,7 +625,11 @@ func (c vfc07StoreCfg) String() string {
 func vfc07NewBucketStore(t testing.TB, fx *vfc07Fixture, cfg vfc07StoreCfg) *BucketStore {
 	logger := log.NewNopLogger()
 	ibkt := objstore.WithNoopInstr(fx.bkt)
-	fetcher, err := block.NewRawMetaFetcher(logger, ibkt, block.NewConcurrentLister(logger, ibkt))
+	var filters []block.MetadataFilter
+	if cfg.delMarks {
+		filters = append(filters, block.NewIgnoreDeletionMarkFilter(logger, ibkt, 0, 1))
+	}
+	fetcher, err := block.NewMetaFetcher(logger, 1, ibkt, block.NewConcurrentLister(logger, ibkt), "", nil, filters)
 	if err != nil {
 		vfc07Setup("meta fetcher: %v", err)
 	}
